@@ -6,6 +6,7 @@ import numpy
 from jaqalpaq.core.algorithm.walkers import TraceSerializer
 from jaqalpaq.core.result import ProbabilisticSubcircuit, ReadoutSubcircuit
 from jaqalpaq.emulator.backend import IndependentSubcircuitsBackend
+from jaqalpaq import _verif_trace
 
 
 class EmulatorSubcircuit(ProbabilisticSubcircuit, ReadoutSubcircuit):
@@ -56,6 +57,7 @@ class UnitarySerializedEmulator(IndependentSubcircuitsBackend):
         # We serialize the subcircuit, obtaining a list of gates.
         # The plan is to apply the associated unitary to vec for each gate.
         s = TraceSerializer(trace)
+        _verif_trace.emit("begin", sub=index, n=n_qubits)
         for gate in s.visit(circ):
             # This captures the classical arguments to the gate
             argv = []
@@ -64,6 +66,7 @@ class UnitarySerializedEmulator(IndependentSubcircuitsBackend):
             gatedef = gatedefs[gate.name]
             if gatedef.ideal_unitary is None:
                 # maybe add other checks?
+                _verif_trace.emit("skip", sub=index, gate=gate.name)
                 continue
 
             for param, val in zip(gatedef.parameters, gate.parameters.values()):
@@ -74,6 +77,9 @@ class UnitarySerializedEmulator(IndependentSubcircuitsBackend):
 
             # This is the dense submatrix
             dsub = gatedef.ideal_unitary(*argv)
+            _verif_trace.emit(
+                "apply", sub=index, gate=gate.name, qind=list(qind), argv=list(argv)
+            )
 
             # now we need to sparse-multiply:
             # vec = U * imp
